@@ -56,7 +56,8 @@ THEOREMS = [
     'C04_lattice_filltr_trcl', 'C04_frame_transform_torus_total',
     'C04_adjust_matrix_near_orthonormal', 'C04_adjust_matrix_idempotent',
     'C04_trcl_cell', 'C04_transformation_law', 'C04_convert_law',
-    'C04_interface_law', 'C04_convert_law_all', 'C04_entry_law',
+    'C04_interface_law', 'C04_interface_law_inv', 'C04_convert_law_all',
+    'C04_entry_law',
     'C04_trcl_cell_t4', 'C04_normalize_matrix_trailing_J',
     'C04_error_branches',
 ]
